@@ -1,39 +1,23 @@
 From Base Require Import CInt.
-From C04 Require Import Gen Model Tactics.
+From C04 Require Import Gen Model Tactics ProofsNarrow ProofsA.
 Local Open Scope Z_scope.
-
-Ltac Zify.zify_post_hook ::= Z.to_euclidean_division_equations.
-
-Lemma floor_from_trunc a b : b <> 0 ->
-  a / b = if Z.quot a b * b =? a then Z.quot a b
-          else Z.quot a b - (if Bool.eqb (a <? 0) (b <? 0) then 0 else 1).
+(* nelua_assert_imod_<T>: "division by zero" iff b = 0, Lua's floor modulo otherwise *)
+Lemma imod_fn_correct t a b : wf_ity t -> sgn t = true -> in_range t a -> in_range t b ->
+  ccall Gnu (imod_fn t true) [a; b] = if b =? 0 then Opanic MSG_DIVZERO else Oval (a mod b).
 Proof.
-  intros Hb. destruct (Z.quot a b * b =? a) eqn:E; destruct (a <? 0) eqn:Ea; destruct (b <? 0) eqn:Eb;
-    cbn [Bool.eqb]; nia.
-Qed.
-
-Lemma quot_bounds a b : b <> 0 ->
-  Z.abs (Z.quot a b) <= Z.abs a /\ Z.abs (Z.quot a b * b) <= Z.abs a.
-Proof.
-  intros Hb.
-  assert (E : Z.abs (Z.quot a b) = Z.abs a / Z.abs b).
-  { rewrite <- Z.quot_abs by exact Hb. apply Z.quot_div_nonneg; lia. }
-  rewrite Z.abs_mul, E.
-  pose proof (Z.mul_div_le (Z.abs a) (Z.abs b) ltac:(lia)).
-  split; [|lia].
-  apply Z.div_le_upper_bound; nia.
-Qed.
-
-Lemma idiv_I8 a b : in_range I8 a -> in_range I8 b ->
-  ccall Gnu (idiv_fn I8 true) [a; b] = if b =? 0 then Opanic MSG_DIVZERO else Oval (wrap I8 (a / b)).
-Proof.
-  intros Ha Hb. apply in_rangeb_spec in Ha. apply in_rangeb_spec in Hb.
-  destruct (b =? 0) eqn:B0; [csolve; cfinish|].
-  destruct (b =? -1) eqn:B1; [csolve; cfinish|].
-  rewrite (floor_from_trunc a b) by lia.
-  pose proof (quot_bounds a b ltac:(lia)) as [Q1 Q2].
-  assert (Hq : in_rangeb I8 (Z.quot a b) = true) by (expose_ranges; unfold I8 in *; expose_ranges; lia).
-  assert (Hq32 : in_rangeb I32 (Z.quot a b) = true) by (expose_ranges; unfold I8, I32 in *; expose_ranges; lia).
-  assert (Hqb : in_rangeb I32 (Z.quot a b * b) = true) by (expose_ranges; unfold I8, I32 in *; expose_ranges; lia).
-  Time csolve. Show.
+  intros Ht Hs Ha Hb.
+  pose proof (lxor_range_signed t a b Ht Hs Ha Hb) as Hx. apply in_rangeb_spec in Hx.
+  apply in_rangeb_spec in Ha. apply in_rangeb_spec in Hb.
+  destruct (b =? 0) eqn:B0.
+  { ity_cases t Ht; try discriminate Hs; clear Hs. all: csolve. all: cfinish. }
+  destruct (b =? -1) eqn:B1.
+  { assert (b = -1) as -> by lia. replace (a mod -1) with 0 by (apply Z.mod_unique with (q := - a); lia).
+    ity_cases t Ht; try discriminate Hs; clear Hs. all: csolve. all: cfinish. }
+  rewrite (mod_from_rem a b) by lia.
+  pose proof (rem_bounds a b ltac:(lia)) as [R1 R2].
+  ity_cases t Ht; try discriminate Hs; clear Hs.
+  - assert (in_rangeb I8 (Z.rem a b) = true) by range_facts I8.
+    assert (in_rangeb I32 (Z.rem a b) = true) by (unfold I32; range_facts I8).
+    assert (in_rangeb I32 (Z.lxor a b) = true) by (unfold I32; range_facts I8).
+    csolve. all: repeat (split_one; zblack; eval_closed; bool_simpl; drop_wraps). all: try cleaf. Show.
 Abort.
